@@ -412,6 +412,14 @@ def order_behaviour(cfg):
             out.append("raised:" + type(ex).__name__)
     return out
 
+def check_in_flight(acc):
+    """Two passes in flight on one month-middleware instance (they declare allow_parallel_execution): see C20's family;
+    here for the three month middlewares, whose results are the property's subject."""
+    from .c20 import check_same_instance_in_flight
+
+    check_same_instance_in_flight(acc, {"MonthIntMiddleware": MonthIntMiddleware, "MonthAbbreviationMiddleware": MonthAbbreviationMiddleware, "MonthLongStringMiddleware": MonthLongStringMiddleware})
+
+
 def check_construction_order(acc):
     """mc/order.py: every ordered pair of configurations, against each configuration first in a fresh interpreter."""
     import sys
@@ -429,6 +437,7 @@ def run_shard(shard, tier, acc):
         check_chains(shard[1], acc)
     elif shard[0] == "construction":
         check_construction_order(acc)
+        check_in_flight(acc)
     elif shard[0] == "non":
         check_unchanged(NON_MONTHS, acc)
     elif shard[0] == "unicode":
@@ -443,7 +452,9 @@ def run_shard(shard, tier, acc):
 
 def replay(case, acc):
     # the spaces are small: re-run the part the case belongs to
-    if "construction_order" in case:
+    if "same_instance_in_flight" in case:
+        check_in_flight(acc)
+    elif "construction_order" in case:
         check_construction_order(acc)
     elif "leak_sequence" in case:
         check_leak(acc)
